@@ -1866,13 +1866,7 @@ def trim_sql(self: Generator, expression: exp.Trim, default_trim_type: str = "")
 def mod_func_sql(self: Generator, expression: exp.Mod) -> str:
     # MOD(a + 1, 7) is parsed with its binary operands wrapped (so that it can be rendered as
     # (a + 1) % 7); the call syntax delimits the arguments, so the wrappers are dropped again
-    this = expression.this
-    other = expression.expression
-    return self.func(
-        "MOD",
-        this.this if isinstance(this, exp.Paren) else this,
-        other.this if isinstance(other, exp.Paren) else other,
-    )
+    return self.func("MOD", expression.this.unnest(), expression.expression.unnest())
 
 
 def concat_to_dpipe_sql(self: Generator, expression: exp.Concat) -> str:
